@@ -2,9 +2,11 @@ package main
 
 import (
 	"context"
+	"crypto/ed25519"
 	"crypto/x509"
 	"encoding/json"
 	"fmt"
+	"math/big"
 	"runtime"
 	"time"
 
@@ -396,6 +398,28 @@ func init() {
 					cborMap(cborInt(1), cborInt(3), cborInt(3), cborInt(-257), cborInt(-1), cborBytes(c.R.Bytes(l)), cborInt(-2), cborBytes([]byte{1, 0, 1})),
 					cborMap(cborInt(1), cborInt(3), cborInt(3), cborInt(-39), cborInt(-1), cborBytes(c.R.Bytes(l)), cborInt(-2), cborBytes(c.R.Bytes(l%9))))
 			}
+			// retyping: genuine key material of every kind under every key type × every registered algorithm (and a few others): a key
+			// that comes back without an error must be usable (Verify, Marshal, …), whatever its members say
+			for _, a := range []int{algES256, algES384, algES512, algRS256, algEdDSA} {
+				kp := genKeyPair(c.R, a)
+				for _, alg := range append(append([]int{}, allAlgs...), 0, 1, -1, -9, -47, -65536) {
+					switch kp.Kind {
+					case "ec":
+						size := (kp.EC.Curve.Params().BitSize + 7) / 8
+						for _, kty := range []int64{1, 2, 3} {
+							cases = append(cases, cborMap(cborInt(1), cborInt(kty), cborInt(3), cborInt(int64(alg)), cborInt(-1), cborInt(int64(kp.Crv)), cborInt(-2), cborBytes(fixed(kp.EC.X, size)), cborInt(-3), cborBytes(fixed(kp.EC.Y, size))))
+						}
+					case "ed":
+						for _, kty := range []int64{1, 2, 3} {
+							cases = append(cases, cborMap(cborInt(1), cborInt(kty), cborInt(3), cborInt(int64(alg)), cborInt(-1), cborInt(6), cborInt(-2), cborBytes(kp.Ed.Public().(ed25519.PublicKey))))
+						}
+					default:
+						for _, kty := range []int64{1, 2, 3} {
+							cases = append(cases, cborMap(cborInt(1), cborInt(kty), cborInt(3), cborInt(int64(alg)), cborInt(-1), cborBytes(kp.RSA.N.Bytes()), cborInt(-2), cborBytes(big.NewInt(int64(kp.RSA.E)).Bytes())))
+						}
+					}
+				}
+			}
 			if c.Thorough() {
 				cases = append(cases, cborMap(cborInt(1), cborInt(3), cborInt(3), cborInt(-257), cborInt(-1), cborBytes(append([]byte{0xff}, c.R.Bytes(59999)...)), cborInt(-2), cborBytes([]byte{1, 0, 1})))
 			}
@@ -444,6 +468,46 @@ func init() {
 			}
 		}},
 		Stream{"structured.memberProduct", func(c *Ctx) { memberProduct(c, "structured.memberProduct") }},
+		Stream{"structured.retyped", func(c *Ctx) {
+			// a credential key whose algorithm belongs to another key type, and (android-key, apple) a certificate key of another kind than
+			// the credential key, through registration; whatever registration stored is then used by an authentication: none of it may panic
+			n := c.N(2, 60)
+			for i := 0; i < n; i++ {
+				for _, f := range allFormats {
+					for _, dv := range []string{"key.algOfOtherType", "ak.certKeyOtherKind", "apple.certKeyOtherKind"} {
+						if (dv == "ak.certKeyOtherKind" && f != "android-key") || (dv == "apple.certKeyOtherKind" && f != "apple") {
+							continue
+						}
+						for v := 0; v < 5; v++ {
+							for _, credAlg := range []int{algES256, algRS256, algEdDSA} {
+								if f == "fido-u2f" && credAlg != algES256 || f == "tpm" && credAlg == algEdDSA {
+									continue
+								}
+								s := newRegSpec(c.R, f, credAlg)
+								s.AttAlg = pick(c.R, attAlgsFor(f))
+								s.Var = v
+								s.Dev[dv] = true
+								b := buildRegistration(c.R, s)
+								op := b.Op()
+								op["_dev"] = dv
+								st := storeFromOp(op)
+								rp := webauthn.NewRelyingParty(string(unhx(op["origin"].(string))), st)
+								res := goCeremonyFromOpPlain(op).run(rp)
+								c.Compare("structured.retyped", op, res, M{"ok": false}, "register/"+f+"/"+dv, true)
+								for _, rec := range st.dump() {
+									// an assertion for the stored record, signed with the genuine private key (the outcome does not matter)
+									as := newAuthSpec(c.R, string(unhx(op["origin"].(string))), b.Cred, unhx(rec["id"].(string)), unhx(rec["owner"].(string)), unhx(rec["pk"].(string)))
+									aop := buildAssertion(c.R, as)
+									aop["_dev"] = dv
+									ares := goCeremonyFromOpPlain(aop).run(rp)
+									c.Compare("structured.retyped", aop, ares, M{"ok": false}, "authenticate-after/"+f+"/"+dv, true)
+								}
+							}
+						}
+					}
+				}
+			}
+		}},
 		Stream{"ceremony.origins", func(c *Ctx) {
 			// both ceremonies on client origins whose host has empty labels, trailing dots, only dots, … (the label walk must terminate)
 			hosts := []string{"www..example.org", ".example.org", "a.b..c.example.org:8443", "example.org.", "..", "a..b", "...example.org", ".", "example.org..", "x.", ".x"}
